@@ -79,6 +79,9 @@ def slices(tier, rng):
     if tier != 'quick':
         out.append(g('graph-k3-ps4', 3, 4, 1, [0, 1, 2, 3, 4, 5], [0, 1]))
         out.append(g('graph-k2-ps8', 2, 8, 2, [6, 1, 2, 5], [0]))
+    from . import c11
+    out.append(Slice('scope-ps4', 't_order_scope', 11, lambda a: c11.assume(a, 4, 2) + [a[1] == 0, a[5] == 0],
+                     opts={'map_order': order_hook, 'must_reach': ['ok/ok']}, ctx={'t': 'scope'}))
     for ps in ((4,) if tier == 'quick' else (4, 8)):
         out.append(Slice('vft-ps%d' % ps, 't_order_vft', 5, lambda a, ps=ps: vft_assume(a, ps) + ([a[4] == 0, a[3] == 0] if tier == 'quick' else []),
                          opts={'map_order': order_hook, 'must_reach': ['ok/ok']}, ctx={'t': 'vft'}))
@@ -125,6 +128,9 @@ def region_env(a, sl):
 
 def describe(template, args):
     a = [int(x) for x in args]
+    if template == 't_order_scope':
+        from . import c11
+        return c11.describe('t_scope', a) + '\n(built twice; second build with permuted hash iteration orders)'
     if template == 't_order_graph': return c10.describe('t_graph', a) + '\n(built twice; second build with a permuted hash-map iteration order)'
     K = {0: 'u32', 1: '*const A', 2: '*const AVftable', 3: '*const CVftable', 4: '*const BVftable'}
     return ('// pointer size %d (built twice with different hash-map iteration orders)\n'
